@@ -2871,7 +2871,8 @@ def groupby_reduce(
             # TODO: How else to narrow that array.chunks is there?
             assert isinstance(array, DaskArray)
 
-        if (not any_by_dask and method is None) or method == "cohorts":
+        # an explicit reindex=True is only implemented by map-reduce: do not let the automatic choice pick another plan
+        if (not any_by_dask and method is None and not reindex.blockwise) or method == "cohorts":
             preferred_method, chunks_cohorts = find_group_cohorts(
                 by_,
                 [array.chunks[ax] for ax in range(-by_.ndim, 0)],
